@@ -244,6 +244,19 @@ def provoked():
     cases.append(('a source inside sources() dies after the sample', lambda root: [list(data), DF.sources(dying_source(150, 120))], {'RuntimeError'}))
     cases.append(('the predicate of conditional raises', lambda root: [list(data), DF.conditional(lambda dp: 1 / 0, DF.Flow(DF.add_field('z', 'integer', 1)))], {'ZeroDivisionError'}))
     cases.append(('a finalizer callback raises', lambda root: [list(data), DF.finalizer(lambda: 1 / 0)], {'ZeroDivisionError'}))
+    # StopIteration is the one exception class an iterator protocol may mistake for "the stream ended": a step raising it at row k
+    # (a bare next() on an exhausted iterator) must fail the run like any other exception, never truncate the resource silently
+    cases.append(('row function raises StopIteration at row 2', lambda root: [list(data), _stop_at(2)], {'RuntimeError', 'StopIteration'}))
+    cases.append(('row function raises StopIteration at the first row of the second resource', lambda root: [list(data), list(data), _stop_at(4)],
+                  {'RuntimeError', 'StopIteration'}))
+    cases.append(('rows function lets StopIteration escape', lambda root: [list(data), _stop_rows], {'RuntimeError', 'StopIteration'}))
+    cases.append(('filter_rows callable raises StopIteration', lambda root: [list(data), DF.filter_rows(condition=_stop_pred(2))], {'RuntimeError', 'StopIteration'}))
+    cases.append(('add_computed_field callable raises StopIteration', lambda root: [list(data), DF.add_computed_field(target='f', operation=_stop_pred(2))],
+                  {'RuntimeError', 'StopIteration'}))
+    cases.append(('set_type transform raises StopIteration', lambda root: [list(data), DF.set_type('a', type='integer', transform=_stop_val(2))],
+                  {'RuntimeError', 'StopIteration'}))
+    cases.append(('sort_rows key callable raises StopIteration', lambda root: [list(data), DF.sort_rows(_stop_key(2))], {'RuntimeError', 'StopIteration'}))
+    cases.append(('an iterable source raises StopIteration from inside its generator', lambda root: [_stop_source(150, 120)], {'RuntimeError', 'StopIteration'}))
     return cases
 
 
@@ -260,6 +273,65 @@ def _raise_at(k):
         if state['n'] == k:
             1 / 0
     return f
+
+
+def _stop_at(k):
+    state = {'n': 0}
+
+    def f(row):
+        state['n'] += 1
+        if state['n'] == k:
+            next(iter(()))           # StopIteration
+    return f
+
+
+def _stop_pred(k):
+    state = {'n': 0}
+
+    def f(row):
+        state['n'] += 1
+        if state['n'] == k:
+            next(iter(()))
+        return True
+    return f
+
+
+def _stop_val(k):
+    state = {'n': 0}
+
+    def f(v):
+        state['n'] += 1
+        if state['n'] == k:
+            next(iter(()))
+        return v
+    return f
+
+
+def _stop_key(k):
+    state = {'n': 0}
+
+    def f(row):
+        state['n'] += 1
+        if state['n'] == k:
+            next(iter(()))
+        return '%05d' % row['a']
+    return f
+
+
+def _stop_rows(rows):
+    it = iter(rows)
+    yield next(it)
+    next(iter(()))
+    yield from it
+
+
+def _stop_source(n, at):
+    def gen():
+        for i in range(n):
+            if i == at:
+                next(iter(()))
+            yield dict(a=i, b='s%d' % i)
+    return gen()
 
 
 def _raise_at_end(rows):
